@@ -190,6 +190,22 @@ CLAIMED.update({
   },
 })
 
+CLAIMED.update({
+  "C09": {
+    "text": "EBU STL reader: (a) real DataFile.process_tti_block on TTI blocks whose TCI/TCO h,m,s,f are symbolic integers, for the 5 "
+            "DFC rates x programme start {none, TCP, explicit}: begin/end == label frames / fps - start (either count accepted "
+            "at 30000/1001), dropped iff before the start; (b) region from symbolic VP, row count, JC, 1-3 lines, single/double "
+            "height: inside the safe area, non-negative, anchored at the VP row, justification, region reuse; (c) byte "
+            "classifiers vs the Tech 3264 code table for a symbolic byte; (d) real 1152-byte files with text fields of <= 4 "
+            "positions by byte class compared with a reference decoder (printable characters, colours, italics, underline, "
+            "line breaks, stop at 8Fh); (e) ISO 6937 diacritic table vs Unicode canonical composition.",
+    "note": "struct.unpack is stubbed by a tuple-passing stand-in in (a),(b) (both modes); spaces and boxing/double-height codes are "
+            "not compared in (d); cumulative sets and extension blocks are not covered yet.",
+    "technique": "symbolic execution with z3 Int/Real proxies + bounded exhaustive exploration of text fields",
+    "design": "DESIGN.md §3 C09",
+  },
+})
+
 NOT_YET = {
 }
 
